@@ -2,8 +2,11 @@
 import os
 from .. import common
 
-SYMS = ["malloc", "mmap", "mremap", "munmap", "open", "fstat", "fopen", "fwrite", "fclose"]
-MUST_REPORT = {"malloc", "mmap", "mremap", "open", "fstat", "fopen", "fwrite", "fclose"}  # munmap: only "no crash"
+SYMS = list(common.WRAPS)
+# calls whose refusal the library cannot work around today: the failure has to come back as NULL / EXIT_FAILURE.  For the others (munmap,
+# close, read - an interrupted read may be retried - and the calls the library does not make today) the judgement is on the outcome:
+# no crash, and if no call reported a failure the final offset, code and file equal the fault-free run.
+MUST_REPORT = {"malloc", "mmap", "mremap", "open", "fstat", "fopen", "fwrite", "fclose"}
 
 
 def long_prog(nbytes, tagbyte):
@@ -47,19 +50,50 @@ def scenarios(wd):
         f.write("mov rax, rbx ;..\n" * 2560)  # 16 bytes per line, 40 kB; the reported size 4096 ends on a line boundary
     S["S8-file-longer-than-stat"] = ["new 0 int", "asm 0 %s" % common.hx(first), "sumoff 0", "wrap fstatshrink 4096", "@", "file 0 %s" % gpath, "sumoff 0", "sum 0 0 300", "del 0"]
     S["S8-filecnt-longer-than-stat"] = ["new 0 int", "asm 0 %s" % common.hx(first), "sumoff 0", "wrap fstatshrink 4096", "@", "filecnt 0 8 %s" % gpath, "sumoff 0", "sum 0 0 300", "del 0"]
+    # file assembly on a caller buffer, twice on one instance, of an empty file, and with growth of the internal buffer DURING the file
+    # call (the text mapping and the code buffer are both live when mremap is refused)
+    epath = os.path.join(wd, "c17-empty.asm")
+    open(epath, "w").close()
+    bpath = os.path.join(wd, "c17-big.asm")
+    with open(bpath, "w") as f:
+        f.write(big + "\n")
+    S["S4b-file-external"] = ["new 0 ext 20000 H 0xcc", "asm 0 %s" % common.hx(first), "sumoff 0", "@", "file 0 %s" % fpath, "sumoff 0", "sum 0 0 300", "del 0"]
+    S["S4c-file-twice"] = ["new 0 int", "asm 0 %s" % common.hx(first), "sumoff 0", "@", "file 0 %s" % fpath, "file 0 %s" % fpath, "sumoff 0", "sum 0 0 300", "del 0"]
+    S["S4d-file-empty"] = ["new 0 int", "asm 0 %s" % common.hx(first), "sumoff 0", "@", "file 0 %s" % epath, "filecnt 0 4 %s" % epath, "sum 0 0 300", "del 0"]
+    S["S4e-file-growing-buffer"] = ["new 0 int", "asm 0 %s" % common.hx(first), "sumoff 0", "@", "file 0 %s" % bpath, "sumoff 0", "sum 0 0 300", "del 0"]
+    S["S4f-filecnt-growing-buffer"] = ["new 0 int", "asm 0 %s" % common.hx(first), "sumoff 0", "@", "filecnt 0 16 %s" % bpath, "sumoff 0", "sum 0 0 300", "del 0"]
+    # short reads (legal at any time): 1000 and 1 byte per read(); a refused read in the middle
+    S["S4g-file-short-reads"] = ["new 0 int", "asm 0 %s" % common.hx(first), "sumoff 0", "wrap readmax 1000", "@", "file 0 %s" % fpath, "sumoff 0", "sum 0 0 300", "del 0"]
+    S["S4h-file-interrupted-read"] = ["new 0 int", "asm 0 %s" % common.hx(first), "sumoff 0", "wrap readmax 4096", "wrap readerrno 4", "@", "file 0 %s" % fpath, "sumoff 0", "sum 0 0 300", "del 0"]
+    # binary output with nothing assembled, onto an existing longer file ('binover' = the harness creates a 1000-byte file first),
+    # twice to the same path with more code in between, and of 20 kB of code (more than one stdio buffer)
+    S["S5b-bin-offset0"] = ["new 0 int", "@", "bin 0 %s" % os.path.join(wd, "c17-out0.bin"), "dump 0 0 0", "del 0"]
+    S["S5c-bin-over-existing"] = ["new 0 int", "asm 0 %s" % common.hx(first), "sumoff 0", "@", "binover 0 %s" % os.path.join(wd, "c17-outx.bin"), "sum 0 0 300", "dump 0 0 300", "del 0"]
+    S["S5d-bin-twice"] = ["new 0 int", "asm 0 %s" % common.hx(first), "sumoff 0", "@", "bin 0 %s" % os.path.join(wd, "c17-out2.bin"), "asm 0 %s" % common.hx(first),
+                          "bin 0 %s" % os.path.join(wd, "c17-out2.bin"), "sum 0 0 300", "dump 0 0 600", "del 0"]
+    S["S5e-bin-20k"] = ["new 0 int", "asm 0 %s" % common.hx(first), "sumoff 0", "asm 0 %s" % common.hx(big), "@", "bin 0 %s" % os.path.join(wd, "c17-outb.bin"), "sum 0 0 300", "dump 0 0 20300", "del 0"]
     return S
 
 
-def build_script(cmds, fail=None, uniq=""):
+def build_script(cmds, fail=None, uniq="", mode="fail"):
     out = ["wrap reset"]
     for c in cmds:
+        if c.startswith("binover "):
+            c = "bin " + c[8:]
+            with open(c.split()[2] + uniq, "wb") as f:
+                f.write(b"\xee" * 1000)
         if c.startswith("bin ") and not c.endswith("/dev/full"):
             c = c + uniq  # one output file per run: runs execute in parallel
         if c == "@":
             # counters restart here so k counts calls of the affected operation only... keep global: arm k-th call from now
-            if fail:
-                out.append("wrap fail %s %d" % fail)
+            if fail and mode == "pair":
+                out.append("wrap fail %s %d" % fail[:2])
+                out.append("wrap fail %s %d" % fail[2:])
+            elif fail:
+                out.append("wrap %s %s %d" % ((mode,) + tuple(fail)))
+                out.append("wrap forcemove 0")
             else:
+                out.append("wrap forcemove 0")
                 out.append("wrap forcemove 0")
         else:
             out.append(c)
@@ -94,33 +128,56 @@ def run(tier):
         w = r["records"][-1]
         pre[n] = {s: int(w.split(" %s=" % s)[1].split("/")[0]) for s in SYMS}
     jobs = []
+    full = tier == "thorough"
     for n in names:
         if n not in counts:
             continue
-        for s in SYMS:
-            k_total = counts[n][s] - pre[n][s]
+        live = [(s, counts[n][s] - pre[n][s]) for s in SYMS if counts[n][s] - pre[n][s] > 0]
+        for s, k_total in live:
             for k in range(1, k_total + 1):
-                jobs.append((n, s, k))
-    res = common.run_cases(binary, [build_script(S[n], (s, k), ".%s%d" % (s, k)) for (n, s, k) in jobs], tag="c17f")
-    stats = {"scenarios": len(names), "failpoints": len(jobs), "fired": 0, "per_symbol": {s: 0 for s in SYMS}, "calls_per_scenario": {n: {s: counts[n][s] - pre[n][s] for s in SYMS if counts[n][s] - pre[n][s]} for n in counts}}
-    for (n, s, k), r in zip(jobs, res):
+                jobs.append((n, "fail", (s, k)))       # exactly the k-th call is refused
+                jobs.append((n, "failfrom", (s, k)))   # the k-th call and every later one are refused (the resource stays exhausted)
+        # two refusals of different operations in one run (the clean-up after the first one meets the second); the thorough tier
+        # takes every pair of failpoints, the quick tier the first call of each operation
+        for i, (s1, t1) in enumerate(live):
+            for (s2, t2) in live[i + 1:]:
+                for k1 in (range(1, t1 + 1) if full else (1,)):
+                    for k2 in (range(1, t2 + 1) if full else (1,)):
+                        jobs.append((n, "pair", (s1, k1, s2, k2)))
+
+    def uniq(mode, f):
+        return ".%s.%s" % (mode, "-".join(str(x) for x in f))
+    res = common.run_cases(binary, [build_script(S[n], f, uniq(mode, f), mode) for (n, mode, f) in jobs], tag="c17f")
+    stats = {"scenarios": len(names), "failpoints": len(jobs), "fired": 0, "not_reached": 0, "per_mode": {"fail": 0, "failfrom": 0, "pair": 0}, "per_symbol": {s: 0 for s in SYMS},
+             "calls_per_scenario": {n: {s: counts[n][s] - pre[n][s] for s in SYMS if counts[n][s] - pre[n][s]} for n in counts}}
+    for (n, mode, f), r in zip(jobs, res):
         v.count()
-        case = {"key": "%s fail %s#%d" % (n, s, k), "fam": "fault", "scenario": n, "sym": s, "k": k}
+        s, k = f[0], f[1]
+        syms = [f[0]] if mode != "pair" else [f[0], f[2]]
+        case = {"key": "%s %s %s" % (n, mode, " ".join("%s#%d" % (f[i], f[i + 1]) for i in range(0, len(f), 2))), "fam": "fault", "scenario": n, "sym": s, "k": k, "mode": mode}
         if r["crash"]:
             v.violation(case, r["crash"]["sig"], (r["crash"]["what"] + "\n" + r["crash"]["stderr"][-1200:]))
             continue
         recs = r["records"]
         w = recs[-1]
-        inj = int(w.split(" %s=" % s)[1].split("/")[1].split()[0])
-        if inj != 1:
+        inj = {x: int(w.split(" %s=" % x)[1].split("/")[1].split()[0]) for x in syms}
+        if mode != "pair" and inj[s] < 1:
             v.inconclusive.append({"why": "failpoint did not fire", "case": case["key"], "report": w})
             continue
+        if mode == "pair" and not (inj[f[0]] or inj[f[2]]):
+            v.inconclusive.append({"why": "failpoint did not fire", "case": case["key"], "report": w})
+            continue
+        if mode == "pair" and not (inj[f[0]] and inj[f[2]]):
+            stats["not_reached"] += 1  # the first refusal ended the call before the second operation was reached: a single fault after all
         stats["fired"] += 1
-        stats["per_symbol"][s] += 1
+        stats["per_mode"][mode] += 1
+        for x in syms:
+            stats["per_symbol"][x] += 1 if inj[x] else 0
         cmds = S[n]
         at = cmds.index("@")
-        # records: [0]=wrap reset, then one per command (the '@' line becomes a 'wrap fail' command with its own record)
-        rec_of = lambda i: recs[1 + i]
+        # records: [0]=wrap reset, then one per command; the '@' line becomes TWO wrap commands
+        rec_of = lambda i: recs[1 + i + (1 if i > at else 0)]
+        ref_of = lambda i: ref[n][1 + i + (1 if i > at else 0)]
         bad = None
         # find the first API record after '@' that reports failure; every injected failure (except munmap) must be reported by some call
         reported = False
@@ -133,22 +190,22 @@ def run(tier):
             if c0 in ("asm", "cnt", "file", "filecnt") and rr[0] == "A" and rr[1] != "0":
                 reported = True
                 break
-            if c0 == "bin" and rr[0] == "B" and rr[1] != "0":
+            if c0 in ("bin", "binover") and rr[0] == "B" and rr[1] != "0":
                 reported = True
                 break
         if not bad and not reported:
             # whatever was (not) reported: the observable end state must then be that of the fault-free run
             for i in range(at + 1, len(cmds)):
-                if cmds[i] == "sumoff 0" and rec_of(i).split()[1:] != ref[n][1 + i].split()[1:]:
-                    bad = ("silent-failure-changes-result", "after the injected %s failure no call failed, but offset/code %s differ from the fault-free run %s" % (s, rec_of(i), ref[n][1 + i]))
-        if not bad and s in MUST_REPORT and not reported:
-            bad = ("failure-not-reported", "no call after the injected %s failure returned NULL/EXIT_FAILURE: %s" % (s, " | ".join(recs[at + 1:at + 5])))
+                if cmds[i] == "sumoff 0" and rec_of(i).split()[1:] != ref_of(i).split()[1:]:
+                    bad = ("silent-failure-changes-result", "after the injected %s failure no call failed, but offset/code %s differ from the fault-free run %s" % (s, rec_of(i), ref_of(i)))
+                if cmds[i].split()[0] in ("asm", "cnt", "file", "filecnt") and rec_of(i).split()[1:5] != ref_of(i).split()[1:5]:
+                    bad = ("silent-failure-changes-result", "after the injected %s failure no call failed, but the call's results %s differ from the fault-free run %s" % (s, rec_of(i), ref_of(i)))
+        if not bad and not reported and any(x in MUST_REPORT and inj[x] for x in syms):
+            bad = ("failure-not-reported", "no call after the injected %s failure returned NULL/EXIT_FAILURE: %s" % (s, " | ".join(recs[at + 1:at + 6])))
         # earlier code intact; and code assembled by the calls after the failing one is where it belongs
         if not bad and "sumoff 0" in cmds[:at]:
-            before = rec_of(cmds.index("sumoff 0")).split()
             # a part whose RETRY failed as well is exempt (partial code), every other fingerprint must equal the fault-free run
             exempt = set()
-            pos = 300
             for i in range(at + 1, len(cmds)):
                 if cmds[i].startswith("asm 0 ") and cmds[i - 1].startswith("setoff 0 "):
                     start = int(cmds[i - 1].split()[2])
@@ -159,33 +216,47 @@ def run(tier):
                     lo, hi = int(cmds[i].split()[2]), int(cmds[i].split()[3])
                     if (lo, hi) in exempt:
                         continue
-                    full = ref[n][1 + i].split()[1]
-                    if rec_of(i).split()[1] != full:
-                        bad = ("earlier-code-corrupted" if hi <= 300 else "code-after-failure-misplaced", "fingerprint of [%d,%d) %s != %s" % (lo, hi, rec_of(i).split()[1], full))
+                    want = ref_of(i).split()[1]
+                    if rec_of(i).split()[1] != want:
+                        bad = ("earlier-code-corrupted" if hi <= 300 else "code-after-failure-misplaced", "fingerprint of [%d,%d) %s != %s" % (lo, hi, rec_of(i).split()[1], want))
                         break
-        # bin success => file complete
+        # bin success => file complete (the LAST successful bin call to a path decides what the file must hold)
         if not bad:
+            last_ok = None
             for i in range(at + 1, len(cmds)):
-                if cmds[i].startswith("bin ") and rec_of(i).split()[1] == "0":
-                    path = cmds[i].split()[2]
-                    if path != "/dev/full":
-                        path += ".%s%d" % (s, k)
-                    dump = [rec_of(j).split()[1] for j in range(i, len(cmds)) if cmds[j].startswith("dump 0 0 300")]
-                    if path != "/dev/full" and dump:
-                        try:
-                            data = open(path, "rb").read().hex()
-                        except OSError:
-                            data = None
-                        if data != dump[0]:
-                            bad = ("bin-success-but-file-incomplete", "file has %s bytes" % (None if data is None else len(data) // 2))
-                    elif path == "/dev/full":
-                        bad = ("bin-success-on-full-device", rec_of(i))
+                if cmds[i].split()[0] in ("bin", "binover"):
+                    last_ok = i if rec_of(i).split()[1] == "0" else None  # a later call that reported failure leaves the file unspecified
+            if last_ok is not None:
+                i = last_ok
+                path = cmds[i].split()[2]
+                if path == "/dev/full":
+                    bad = ("bin-success-on-full-device", rec_of(i))
+                else:
+                    path += uniq(mode, f)
+                    # the code at the time of that call: [0, offset) - the scenario's final dump covers at least that; the offset at the
+                    # call is the sum of what had been assembled successfully by then (scenarios dump exactly that range unless a later
+                    # asm call failed, in which case the dump is cut to the length the file may have)
+                    dump = [rec_of(j).split()[1] for j in range(i, len(cmds)) if cmds[j].startswith("dump 0 0 ")]
+                    d = "" if not dump or dump[0] == "-" else dump[0]
+                    try:
+                        data = open(path, "rb").read().hex()
+                    except OSError:
+                        data = None
+                    later_asm_failed = any(cmds[j].startswith("asm ") and rec_of(j).split()[1] != "0" for j in range(i, len(cmds)))
+                    earlier_asm_failed = any(cmds[j].startswith("asm ") and rec_of(j).split()[1] != "0" for j in range(at, i))
+                    if data is None:
+                        bad = ("bin-success-but-file-incomplete", "no file")
+                    elif earlier_asm_failed or later_asm_failed:
+                        if not d.startswith(data[:600]) or len(data) < 600:
+                            bad = ("bin-success-but-file-incomplete", "file has %d bytes and differs from the code" % (len(data) // 2))
+                    elif data != d:
+                        bad = ("bin-success-but-file-incomplete", "file has %d bytes, the code %d" % (len(data) // 2, len(d) // 2))
         if bad:
             v.violation(case, bad[0], bad[1])
         else:
-            v.distinct((n, s, k))
-            if len(v.cov["samples"]) < 12 and k == 1:
-                v.sample({"scenario": n, "failpoint": "%s#%d" % (s, k), "records_after_fault": recs[at + 1:at + 4], "report": w.strip()})
+            v.distinct((n, mode, f))
+            if len(v.cov["samples"]) < 16 and k == 1 and mode != "pair":
+                v.sample({"scenario": n, "failpoint": "%s %s#%d" % (mode, s, k), "records_after_fault": recs[at + 2:at + 5], "report": w.strip()})
     # the real ENOSPC path without injection
     for n, r in zip(names, base):
         if n == "S5-bin-devfull" and not r["crash"]:
@@ -195,10 +266,11 @@ def run(tier):
                 v.violation({"key": n + " (no injection)", "fam": "fault", "scenario": n}, "bin-success-on-full-device", b)
             else:
                 v.distinct((n, "real-ENOSPC"))
-    v.cov["rule"] = ("fault enumeration: for each of %d API scenarios (create on internal/caller buffer; 20 kB assembly with 3 growths in plain / fitting / counting mode; a 200 kB assembly in ten calls (about 33 growths) that continues after the refused growth; file and file-counting assembly of a 3-page file; "
-                     "binary output to a file and to /dev/full; fail-then-continue-then-bin) a counting run records how often each of malloc, mmap, mremap, munmap, open, fstat, fopen, fwrite, fclose is called after the arming "
-                     "point, then one run per (symbol, k) makes exactly that call fail with a realistic errno. Checked: no crash/sanitizer report, the failure is reported by NULL/EXIT_FAILURE (munmap: no crash only), "
-                     "[0,300) assembled earlier is intact, the instance can be destroyed, bin EXIT_SUCCESS only with a complete file" % len(names))
+    v.cov["rule"] = ("fault enumeration: for each of {N} API scenarios (create on internal/caller buffer; 20 kB assembly with 3 growths in plain / fitting / counting mode; a 200 kB assembly in ten calls (about 33 growths) that continues after the refused growth; file and file-counting assembly of a 3-page file, "
+                     "on a caller buffer, twice, of an empty file, with growth of the code buffer during the file call, with short and interrupted reads, of a file longer than its stat size; "
+                     "binary output to a file (nothing assembled, over an existing longer file, twice, 20 kB) and to /dev/full; fail-then-continue-then-bin) a counting run records how often each of {SYMS} is called after the arming "
+                     "point (operations the library does not call have no failpoints), then one run per (operation, k) refuses exactly that call, one run refuses that call and all later ones, and runs with two refusals of different operations (quick: first calls; thorough: all pairs). Checked: no crash/sanitizer report, the failure is reported by NULL/EXIT_FAILURE (munmap: no crash only), "
+                     "[0,300) assembled earlier is intact, the instance can be destroyed, bin EXIT_SUCCESS only with a complete file").format(N=len(names), SYMS=", ".join(SYMS))
     v.cov["exhaustive"] = True
     v.cov.update(stats)
     return v.finish(None, stats["fired"] >= 15 and stats["fired"] == len(jobs), "failpoints fired %d of %d" % (stats["fired"], len(jobs)))
